@@ -213,6 +213,40 @@ def run(chk, facts):
                "the order in which State::token emits pending newlines and indent tokens changed (the parser's NL sites rely on `[NL] Indent* NL* token`)", facts.loc_of(tk))
     except AnchorError as e:
         chk.anchor_fail("R-C14-5", e)
+    # ---------------- R-C14-6 ----------------
+    # redundant parentheses: `(e)` is parsed by the collection parser, which asks `is_start_expression` whether an element follows; `e` on its
+    # own is parsed by `parse_inner_expression`, which dispatches on the first token.  Every token the dispatch accepts must satisfy the
+    # predicate (folded over the token variants, rules/smalleval.py) - otherwise `e` parses and `(e)` / `[.., e]` does not
+    chk.rule("R-C14-6", "every token an expression may start with is accepted as the start of a tuple / list / set element")
+    try:
+        from .smalleval import SmallEval, NoEval
+        pie = syn.one_fn("parse_inner_expression", mod="parse::expression")
+        ise = syn.one_fn("is_start_expression", mod="parse::expression")
+        local = {f_["name"]: f_ for f_ in syn.fns if f_["mod"] == "parse::expression" and f_.get("impl_of") is None and f_.get("body")}
+        ms = [n for n in walk(pie["body"]) if n.get("k") == "match" and "token" in src(n["e"], -30)]
+        if not ms:
+            raise AnchorError("parse_inner_expression: no match on the token")
+        starts = set()
+        for a in max(ms, key=lambda m_: len(m_["arms"]))["arms"]:
+            for alt in (a["pat"]["cases"] if a["pat"].get("k") == "por" else [a["pat"]]):
+                if alt.get("k") in ("ppath", "ptstruct", "pstruct") and alt["p"].startswith("Token::"):
+                    starts.add(alt["p"])
+        if len(starts) < 10:
+            raise AnchorError(f"parse_inner_expression dispatches on {len(starts)} tokens only")
+        ev = SmallEval(local_fns=local)
+        bad6 = []
+        for tok in sorted(starts):
+            try:
+                r_ = ev.call(ise, [{"__struct__": "Lex", "token": ("variant", tok, [("sym", "payload"), ("sym", "payload2")])}])
+            except NoEval as ex:
+                r_ = f"not evaluable ({ex})"
+            if r_ is not True:
+                bad6.append((tok, r_))
+        chk.ob("R-C14-6", "start-tokens-agree", not bad6, f"all {len(starts)} tokens that parse_inner_expression dispatches on satisfy is_start_expression" if not bad6 else
+               f"an expression may start with {[t for t, _ in bad6]}, but is_start_expression answers {bad6[0][1]} for it: `{bad6[0][0].split('::')[-1].lower()} x` parses while "
+               "`(.. x)` and `[a, .. x]` are syntax errors - redundant parentheses change the verdict", facts.loc_of(ise))
+    except AnchorError as e:
+        chk.anchor_fail("R-C14-6", e)
     chk.notes.append("C14: parser NL sites enumerated from the syntax; lexer arms from the lexer model. The invariance of the indentation automaton as a whole is not decided (ND).")
 
 
